@@ -494,6 +494,17 @@ def read (text : Str) : Except RErr MapSet :=
     | .error e => .error (.py e)
     | .ok cs => .ok ⟨st.hdr, cs⟩
 
+/-- Python's universal-newline translation of a text file opened with `open(path, "r")`: "\r\n" and a bare "\r"
+both become "\n" -/
+def univNl : Str → Str
+  | [] => []
+  | '\r' :: '\n' :: t => '\n' :: univNl t
+  | '\r' :: t => '\n' :: univNl t
+  | c :: t => c :: univNl t
+
+/-- `SMMapSet.read_file` on the decoded content of the file -/
+def readFile (content : Str) : Except RErr MapSet := read (univNl content)
+
 /-! ## Writer (`SMMapSet.write`, `SMMapSetMeta._write_metadata`, `SMMap.write`)
 
 The model produces the *structure* of the written text (header values, `#BPMS` pairs, the rows of every
